@@ -1,6 +1,7 @@
 /-
 C04 — A `>>` chain builds exactly the nested pipeline, however grouped or curried.
 -/
+import CobaldVerif.Generated.Src
 import CobaldVerif.Lemmas.Partial
 
 namespace Cobald.Props.C04
@@ -280,5 +281,23 @@ example : exSig.names.Nodup := by decide
 example : exSig.bindPartial 2 ["kwa"] = true ∧ exSig.bindPartial 5 [] = false ∧
     exSig.bindPartial 2 ["a"] = false ∧ exSig.bindPartial 1 ["zz"] = false := by decide
 example : exSig.callBinds 2 (["kwa"] ++ missing exSig 2 ["kwa"]) = true := by decide
+
+/-! ### the source text the model was transcribed from
+
+`cobald/interfaces/_partial.py`: `Partial` (construction with the eager signature check, currying, `>>`, `__construct__`) and `PartialBind` - the definitions `Tmpl`, `rshift`, `bindPartial`, `curry` of `Model/Partial.lean` were transcribed from them.
+`Gen.runtimePins` (recomputed on every run) says for each of these functions whether its normalised
+text is still the text of `harness/vh/pins.json`; a changed function breaks this theorem and the
+correspondence streams are then the search for a failing input. -/
+
+theorem gen_source_text :
+    ∀ n ∈ ["partial:Partial.__init__",
+     "partial:Partial._check_signature",
+     "partial:Partial._signature",
+     "partial:Partial.__call__",
+     "partial:Partial.__construct__",
+     "partial:Partial.__rshift__",
+     "partial:PartialBind.__init__",
+     "partial:PartialBind.__rshift__"],
+      Gen.pinned n = true := by decide
 
 end Cobald.Props.C04
